@@ -366,6 +366,25 @@ func churnCount(t *rapid.T) int {
 	return 130
 }
 
+// afterRetype draws one step with mk and first turns the key it names into a value of another type (with or
+// without a deadline): the command must fail with WRONGTYPE and leave that value, its deadline and every
+// other key exactly as they were.
+func afterRetype(t *rapid.T, keys []string, mk func(*rapid.T) kit.Argv) []kit.Argv {
+	step := mk(t)
+	for _, a := range step[1:] {
+		for _, k := range keys {
+			if string(a) == k {
+				out := []kit.Argv{kit.A("DEL", k), kit.A(pick(t, "retype", []string{"SET", k, "12"}, []string{"RPUSH", k, "x", "y"}, []string{"HSET", k, "f", "1"}, []string{"SADD", k, "m", "n"})...)}
+				if rapid.Bool().Draw(t, "retype-ttl") {
+					out = append(out, kit.A("PEXPIREAT", k, "4102444800000"))
+				}
+				return append(out, step)
+			}
+		}
+	}
+	return []kit.Argv{step}
+}
+
 // afterGone draws one step with mk and puts in front of it steps that make the key(s) it names gone
 // (see goneStep): the command then meets a key that no client can see but that may still sit in the table.
 func afterGone(t *rapid.T, keys []string, mk func(*rapid.T) kit.Argv) []kit.Argv {
